@@ -142,7 +142,7 @@ Inv_C01_local == \A c \in Candidates(stack, CurNow) : (c.e = "exit" /\ c.ok) => 
 
 \* C02: a keep-going error type receives exactly the independent faults of the payload, whatever the order
 FaultsOfInput == IF fnf = {} THEN cur.faults0 ELSE Faults(cur.ty, cur.val, <<>>, cur.pk, fnf)
-Inv_C02 == (Done /\ AllC) => SameBag(reps, FaultsOfInput)
+Inv_C02 == (Done /\ AllC /\ FactsUnambiguous(cur.val, fnf)) => SameBag(reps, FaultsOfInput)
 \* ... and a frame never returns while obligations are pending unless a stop was answered
 Inv_C02_local == \A c \in Candidates(stack, CurNow) : c.e = "exit" => (Top(stack).pend = {} \/ Top(stack).brk \/ stopped \/ Top(stack).ph \in {"fin", "leafok"})
 
@@ -151,7 +151,7 @@ Inv_C03 == stopped => newAfterStop = 0
 \* ... the always-stop run yields exactly the first report of the keep-going run (canonical order makes "first" meaningful)
 IsSubseq(a, b) == LET RECURSIVE f(_, _) f(i, j) == IF i > Len(a) THEN TRUE ELSE IF j > Len(b) THEN FALSE
                                                   ELSE IF a[i] = b[j] THEN f(i + 1, j + 1) ELSE f(i, j + 1) IN f(1, 1)
-Inv_C03_first == (Canonical /\ Done /\ out.z = "err") =>
+Inv_C03_first == (Canonical /\ Done /\ out.z = "err" /\ FactsUnambiguous(cur.val, fnf)) =>
                     /\ IsSubseq(reps, FaultsOfInput)
                     /\ reps[1] = FaultsOfInput[1]
                     /\ (AllB => Len(reps) = 1)
@@ -180,7 +180,7 @@ Inv_Value == \A c \in Candidates(stack, CurNow) : (c.e = "exit" /\ c.ok) => Valu
 (* is the order-free ValueOf, and (Inv_C02) the report bag is the order-free Faults                                               *)
 Inv_C15 == (Done /\ out.z = "ok" /\ ~usedfn) => EqMod(out.val, ValueOf(cur.ty, cur.val, cur.pk))
 \* a successful call means the payload has no fault, and vice versa under keep-going
-Inv_OkIffNoFaults == (Done /\ AllC) => ((out.z = "ok") <=> (FaultsOfInput = <<>>))
+Inv_OkIffNoFaults == (Done /\ AllC /\ FactsUnambiguous(cur.val, fnf)) => ((out.z = "ok") <=> (FaultsOfInput = <<>>))
 
 \* C11: a conversion / map / validate function is only ever due in a frame that has seen no failure, and validate only after every map
 Inv_C11 == \A c \in Candidates(stack, CurNow) :
